@@ -318,7 +318,7 @@ func C11State(s *Snap, g *lifeGhost) []engine.Finding {
 			}
 		}
 		m := s.Metas[d]
-		if end := m.CreatedAt + m.Duration; !inflight && int64(end) <= s.H && containsS(s.ExpData[end], d) {
+		if end := m.CreatedAt + m.Duration; !inflight && int64(end) == s.H && containsS(s.ExpData[end], d) {
 			continue // its deletion is scheduled for the end-block of the block in progress
 		}
 		if !inflight {
